@@ -269,6 +269,17 @@ def allowed_class(tag, d, ser):
 PLAIN = (type(None), bool, int, float, complex, str, bytes, bytearray, datetime.datetime, datetime.date, decimal.Decimal, uuid.UUID)
 
 
+def _nested_proxy_inside_tagged(tree, inside=False):
+    if isinstance(tree, dict):
+        tagged = "__class__" in tree
+        if tagged and inside and tree.get("__class__") in ("Pyro5.client.Proxy", b"Pyro5.client.Proxy"):
+            return True
+        return any(_nested_proxy_inside_tagged(v, inside or tagged) for k, v in tree.items() if k != "__class__")
+    if isinstance(tree, (list, tuple)):
+        return any(_nested_proxy_inside_tagged(v, inside) for v in tree)
+    return False
+
+
 def closed_set_ok(obj):
     import sqlite3
     from Pyro5 import core, client, server, serializers
@@ -443,7 +454,12 @@ def run_case(case):
         TIMEOUTS[0] += 1
         return V
     if events:
-        viol("side-effect", "audit events during decode: %s" % sorted(set(events))[:5])
+        sig = "side-effect"
+        if case["ser"] == "msgpack" and _nested_proxy_inside_tagged(case["tree"]) and all(e.startswith("socket.") for e in events):
+            # msgpack's object_hook works bottom-up: a Proxy nested in the state/args of another tagged dict exists as a live
+            # object when the outer one is built, and using it (index, iterate, len) is a remote call
+            sig = "side-effect:msgpack-nested-proxy-used"
+        viol(sig, "audit events during decode: %s" % sorted(set(events))[:5])
         for e in events:
             if e.startswith("import:"):
                 sys.modules.pop(e[7:], None)     # so that the observation repeats on replay
@@ -539,8 +555,48 @@ HOSTILE_FLOAT_VALUES = ["nan", "inf", "-inf", "1.5", "__import__('os')", "__impo
                         "open('/etc/passwd')", "exec('x=1')", "float", "'nan'", " nan ", "NaN", "1_0", "0x10", "1e400", "٥", 5, None, [1], {"a": 1}, True]
 
 
+def nesting_cases():
+    """class-tagged dicts of the closed set nested inside the state / args / attributes of another one: building the outer
+    object must not USE the inner one (iterating or len()-ing a Proxy is a remote call: it would open a socket)"""
+    inner_proxy = {"__class__": "Pyro5.client.Proxy", "state": ["PYRO:obj@127.0.0.1:9", [], [], [], "hello", None]}
+    inner_uri = {"__class__": "Pyro5.core.URI", "state": ["PYRO", "obj", None, "127.0.0.1", 9]}
+    inner_exc = {"__class__": "builtins.ValueError", "__exception__": True, "args": ["x"], "attributes": {}}
+    for ser in ("serpent", "json", "marshal", "msgpack"):
+        for inner in (inner_proxy, inner_uri, inner_exc):
+            outers = []
+            for idx in range(6):
+                st_ = ["PYRO:obj@127.0.0.1:9", [], ["m"], [], "hello", None]
+                st_[idx] = inner
+                outers.append({"__class__": "Pyro5.client.Proxy", "state": st_})
+                st2 = ["PYRO:obj@127.0.0.1:9", [], ["m"], [], "hello", None]
+                if idx in (1, 2, 3):
+                    st2[idx] = [inner]
+                    outers.append({"__class__": "Pyro5.client.Proxy", "state": st2})
+            for idx in range(5):
+                st_ = ["PYRO", "obj", None, "127.0.0.1", 9]
+                st_[idx] = inner
+                outers.append({"__class__": "Pyro5.core.URI", "state": st_})
+            outers.append({"__class__": "Pyro5.core.URI", "state": inner})
+            outers.append({"__class__": "Pyro5.client.Proxy", "state": inner})
+            outers.append({"__class__": "Pyro5.server.Daemon", "state": inner})
+            for tag in ("builtins.ValueError", "Pyro5.errors.NamingError", "builtins.OSError", "builtins.KeyError"):
+                outers.append({"__class__": tag, "__exception__": True, "args": inner})
+                outers.append({"__class__": tag, "__exception__": True, "args": [inner]})
+                outers.append({"__class__": tag, "__exception__": True, "args": ["x"], "attributes": {"a": inner}})
+                outers.append({"__class__": tag, "__exception__": True, "args": ["x"], "attributes": inner})
+            outers.append({"__class__": "Pyro5.core._ExceptionWrapper", "exception": inner})
+            outers.append({"__class__": "float", "value": inner})
+            for o in outers:
+                for path in ("loads", "call-args", "call-kwargs"):
+                    yield {"ser": ser, "path": path, "tree": o}
+
+
 def sweep_cases(shard_index, shard_count):
     i = 0
+    for case in nesting_cases():
+        i += 1
+        if i % shard_count == shard_index:
+            yield case
     for ser in ("serpent", "json", "marshal", "msgpack"):
         for v in HOSTILE_FLOAT_VALUES:
             for path in ("loads", "call-args", "call-kwargs"):
